@@ -84,7 +84,7 @@ assert len(CAT) == 61
 NO_IDLE_METHOD = {'Apo', 'Aroon', 'Bop', 'TypicalPrice'}
 
 # ---------------------------------------------------------------- series
-REGIMES = ['walk', 'walk', 'wide', 'flat', 'up', 'down', 'zigzag', 'ties', 'plateau', 'offset', 'outlier', 'wide']
+REGIMES = ['walk', 'walk', 'wide', 'flat', 'up', 'down', 'zigzag', 'ties', 'plateau', 'offset', 'outlier', 'wide', 'dips']
 
 
 def q(x):
@@ -111,6 +111,15 @@ def gen_ohlcv(rng, n, regime=None):
             c = max(1.0, c + rng.uniform(-0.03, 0.03) * base)
         elif regime == 'flat':
             c = base
+        elif regime == 'dips':
+            # an up-trend interrupted by sharp pull-backs of a few bars followed by small recoveries
+            ph = i % 17
+            if ph in (9, 10, 11):
+                c = max(1.0, c - rng.choice([2.0, 3.0, 4.0]) * base / 100)
+            elif ph in (12, 13, 14, 15):
+                c = c + rng.choice([0.05, 0.1, 0.2]) * base / 100
+            else:
+                c = c + rng.choice([0.5, 1.0, 1.5]) * base / 100
         elif regime == 'up':
             c = c + rng.choice([0.25, 0.5, 1.0]) * base / 100
         elif regime == 'down':
@@ -148,6 +157,9 @@ def gen_ohlcv(rng, n, regime=None):
             vol = v[-1]            # equal consecutive volumes (thin / halted trading): ties in volume comparisons
         v.append(vol)
         prev = c
+    if rng.random() < 0.25:
+        fr = rng.choice([1 / 64.0, 1 / 1024.0, 0.37])      # fractional units (crypto, fractional shares)
+        v = [x * fr for x in v]
     return {'o': o, 'h': h, 'l': l, 'c': close, 'v': v}, regime
 
 
